@@ -530,3 +530,415 @@ def self_modsets(repo: Repo, relpath: str, clsname: str) -> Dict[str, Set[str]]:
                     direct[m] |= direct[c]
                     changed = True
     return direct
+
+
+# ---------------------------------------------------------------------------
+# normalisation: inline single-purpose private helpers, so that a statement that a
+# refactoring moved into `self._helper(...)` / `_helper(...)` is analysed in place
+
+
+#: functions that are anchors of the HTTP properties themselves: never inlined into their callers
+NO_INLINE = {
+    "_read_message", "_parse_headers", "_read_body", "_read_fixed_body", "_read_chunked_body", "_read_body_until_close",
+    "_can_keep_alive", "_finish_request", "_clear_callbacks", "_format_chunk", "_on_write_complete", "_on_connection_close",
+    "_server_request_loop", "_check_max_bytes", "_find_read_pos", "_read_to_buffer", "_read_to_buffer_loop", "_try_inline_read",
+    "_start_read", "_finish_read", "_read_from_buffer", "_handle_read", "_check_closed", "_should_follow_redirect", "_run_callback",
+    "_release", "_remove_timeout", "_handle_exception", "_on_end_request", "_write_body", "_create_connection", "_apply_xheaders",
+    "_unapply_xheaders", "_cleanup", "_normalize_header", "_parse_body", "_signal_closed", "_maybe_add_error_listener", "_consume",
+    "_add_io_state", "_handle_events", "_handle_write", "_handle_connect", "__init__",
+}
+
+
+def _terminates(body: List[ast.stmt]) -> bool:
+    if not body:
+        return False
+    last = body[-1]
+    if isinstance(last, (ast.Return, ast.Raise, ast.Continue, ast.Break)):
+        return True
+    if isinstance(last, ast.If):
+        return bool(last.orelse) and _terminates(last.body) and _terminates(last.orelse)
+    return False
+
+
+def _tailify(body: List[ast.stmt]) -> List[ast.stmt]:
+    """``if c: ...return``  followed by more statements  ==>  ``if c: ...return  else: <rest>`` (recursively)"""
+    out = []
+    for i, st in enumerate(body):
+        if isinstance(st, ast.If):
+            st.body = _tailify(st.body)
+            st.orelse = _tailify(st.orelse)
+            if i < len(body) - 1 and not st.orelse and _terminates(st.body) and isinstance(st.body[-1], (ast.Return, ast.Raise)):
+                st.orelse = _tailify(body[i + 1:])
+                out.append(st)
+                return out
+        elif isinstance(st, ast.Try) and not st.finalbody:
+            st.body = _tailify(st.body)
+            st.orelse = _tailify(st.orelse)
+            for h in st.handlers:
+                h.body = _tailify(h.body)
+        elif isinstance(st, (ast.With, ast.AsyncWith)):
+            st.body = _tailify(st.body)
+        out.append(st)
+    return out
+
+
+def _has_return(st: ast.AST) -> bool:
+    return any(isinstance(x, ast.Return) for x in q.walk_local(st))
+
+
+def _tail_ok(body: List[ast.stmt]) -> bool:
+    """every ``return`` of the block is in tail position"""
+    for st in body[:-1]:
+        if _has_return(st):
+            return False
+    if not body:
+        return True
+    last = body[-1]
+    if isinstance(last, ast.Return):
+        return True
+    if isinstance(last, ast.If):
+        return _tail_ok(last.body) and _tail_ok(last.orelse)
+    if isinstance(last, ast.Try):
+        return not last.finalbody and _tail_ok(last.body if not last.orelse else last.orelse) and (not last.orelse or not any(_has_return(s) for s in last.body)) and all(_tail_ok(h.body) for h in last.handlers)
+    if isinstance(last, (ast.With, ast.AsyncWith)):
+        return _tail_ok(last.body)
+    return not _has_return(last)
+
+
+def _rewrite_returns(body: List[ast.stmt], make) -> List[ast.stmt]:
+    out = []
+    for st in body:
+        if isinstance(st, ast.Return):
+            out.extend(make(st))
+            continue
+        if isinstance(st, ast.If):
+            st.body = _rewrite_returns(st.body, make)
+            st.orelse = _rewrite_returns(st.orelse, make)
+        elif isinstance(st, ast.Try):
+            st.body = _rewrite_returns(st.body, make)
+            st.orelse = _rewrite_returns(st.orelse, make)
+            for h in st.handlers:
+                h.body = _rewrite_returns(h.body, make)
+        elif isinstance(st, (ast.With, ast.AsyncWith)):
+            st.body = _rewrite_returns(st.body, make)
+        out.append(st)
+    return out or [ast.Pass()]
+
+
+class _Rename(ast.NodeTransformer):
+    def __init__(self, mapping):
+        self.m = mapping
+
+    def visit_Name(self, n):
+        if n.id in self.m:
+            return ast.copy_location(ast.Name(id=self.m[n.id], ctx=n.ctx), n)
+        return n
+
+    def visit_ExceptHandler(self, h):
+        if h.name and h.name in self.m:
+            h.name = self.m[h.name]
+        self.generic_visit(h)
+        return h
+
+
+_INLINE_COUNTER = [0]
+
+
+def _inline_call_stmt(repo: Repo, fi: FuncInfo, st: ast.stmt, no_inline: Set[str]) -> Optional[List[ast.stmt]]:
+    import copy as _copy
+    v = st.value if isinstance(st, (ast.Assign, ast.AnnAssign, ast.Expr, ast.Return)) else None
+    awaited = False
+    if isinstance(v, ast.Await):
+        v = v.value
+        awaited = True
+    if not isinstance(v, ast.Call):
+        return None
+    if isinstance(st, ast.Assign) and not (len(st.targets) == 1 and q.dotted(st.targets[0])):
+        return None
+    h = resolve_call(repo, fi, v)
+    if h is None or h.file != fi.file or h.node is fi.node or h.qualname == fi.qualname:
+        return None
+    if h.name in no_inline or not h.name.startswith("_") or h.name.startswith("__"):
+        return None
+    hn = h.node
+    if isinstance(hn, ast.AsyncFunctionDef) != awaited:
+        return None
+    deco = [q.dotted(d) for d in hn.decorator_list]
+    if any(d not in ("staticmethod", "classmethod") for d in deco):
+        return None
+    if any(isinstance(x, (ast.Yield, ast.YieldFrom) + FuncNodeT + (ast.ClassDef, ast.Lambda, ast.Global, ast.Nonlocal)) for s in hn.body for x in q.walk_local(s)):
+        return None
+    a = hn.args
+    if a.vararg or a.kwarg or a.posonlyargs or any(isinstance(x, ast.Starred) for x in v.args) or any(k.arg is None for k in v.keywords):
+        return None
+    if sum(1 for s in hn.body for _x in ast.walk(s) if isinstance(_x, ast.stmt)) > 40:
+        return None
+    names = [x.arg for x in a.args]
+    is_method = h.cls is not None and "staticmethod" not in deco
+    recv = None
+    if is_method:
+        if not names:
+            return None
+        if isinstance(v.func, ast.Attribute) and q.dotted(v.func.value) in ("self", "cls"):
+            recv = v.func.value
+        else:
+            return None
+        first = names[0]
+        if "classmethod" in deco and any(isinstance(x, ast.Name) and x.id == first for s in hn.body for x in ast.walk(s)):
+            return None
+        names = names[1:]
+    body = _tailify(_copy.deepcopy(hn.body))
+    if body and isinstance(body[0], ast.Expr) and isinstance(body[0].value, ast.Constant) and isinstance(body[0].value.value, str):
+        body = body[1:]
+    if not _tail_ok(body):
+        return None
+    _INLINE_COUNTER[0] += 1
+    pre = "_inl%d_" % _INLINE_COUNTER[0]
+    locs = set(q.local_names(hn)) | set(names)
+    mapping = {n: pre + n for n in locs}
+    if is_method and "classmethod" not in deco:
+        mapping.pop(hn.args.args[0].arg, None)
+        if hn.args.args[0].arg != "self":
+            mapping[hn.args.args[0].arg] = "self"
+    defaults = [None] * (len(a.args) - len(a.defaults)) + list(a.defaults)
+    if is_method:
+        defaults = defaults[1:]
+    binds: List[ast.stmt] = []
+    kw = {k.arg: k.value for k in v.keywords}
+    for i, nm in enumerate(names):
+        if i < len(v.args):
+            val = v.args[i]
+        elif nm in kw:
+            val = kw[nm]
+        elif defaults[i] is not None:
+            val = _copy.deepcopy(defaults[i])
+        else:
+            return None
+        binds.append(ast.Assign(targets=[ast.Name(id=pre + nm, ctx=ast.Store())], value=val))
+    for x, dv in zip(a.kwonlyargs, a.kw_defaults):
+        if x.arg in kw:
+            val = kw[x.arg]
+        elif dv is not None:
+            val = _copy.deepcopy(dv)
+        else:
+            return None
+        mapping[x.arg] = pre + x.arg
+        binds.append(ast.Assign(targets=[ast.Name(id=pre + x.arg, ctx=ast.Store())], value=val))
+    body = [_Rename(mapping).visit(s) for s in body]
+    if isinstance(st, ast.Return):
+        new = body
+        if not _terminates(new):
+            new = new + [ast.Return(value=ast.Constant(value=None))]
+    else:
+        if isinstance(st, ast.Expr):
+            make = lambda r: ([ast.Expr(value=r.value)] if r.value is not None and not isinstance(r.value, (ast.Constant, ast.Name)) else [ast.Pass()])
+            init: List[ast.stmt] = []
+        else:
+            tgt = st.targets[0] if isinstance(st, ast.Assign) else st.target
+            make = lambda r, tgt=tgt: [ast.Assign(targets=[_copy.deepcopy(tgt)], value=r.value if r.value is not None else ast.Constant(value=None))]
+            init = [] if _terminates_all_paths_with_return(body) else [ast.Assign(targets=[_copy.deepcopy(tgt)], value=ast.Constant(value=None))]
+        new = init + _rewrite_returns(body, make)
+    out = binds + new
+    for s in out:
+        ast.copy_location(s, st)
+        ast.fix_missing_locations(s)
+    return out
+
+
+FuncNodeT = (ast.FunctionDef, ast.AsyncFunctionDef)
+
+
+def _terminates_all_paths_with_return(body: List[ast.stmt]) -> bool:
+    """every path through the (tail-normalised) block ends in return/raise"""
+    if not body:
+        return False
+    last = body[-1]
+    if isinstance(last, (ast.Return, ast.Raise)):
+        return True
+    if isinstance(last, ast.If):
+        return bool(last.orelse) and _terminates_all_paths_with_return(last.body) and _terminates_all_paths_with_return(last.orelse)
+    if isinstance(last, ast.Try) and not last.finalbody:
+        return _terminates_all_paths_with_return(last.orelse if last.orelse else last.body) and all(_terminates_all_paths_with_return(h.body) for h in last.handlers)
+    if isinstance(last, (ast.With, ast.AsyncWith)):
+        return _terminates_all_paths_with_return(last.body)
+    return False
+
+
+def norm_func(repo: Repo, fi: FuncInfo, depth: int = 2, no_inline: Optional[Set[str]] = None) -> FuncInfo:
+    """``fi`` with statement-level calls of private same-file helpers (tail-returning, non-recursive, at most 40
+    statements, not themselves anchors) replaced by the helper's body.  The result has the same qualified name, so
+    findings are keyed by the anchored function."""
+    import copy as _copy
+    cache = repo.__dict__.setdefault("_x_http_norm", {})
+    key = (fi.file, fi.qualname, id(fi.node))
+    if key in cache:
+        return cache[key]
+    no_inline = NO_INLINE if no_inline is None else no_inline
+    node = _copy.deepcopy(fi.node)
+    cur = FuncInfo(fi.module, fi.qualname, node, fi.cls, fi.parent)
+    changed_any = False
+    for _round in range(depth):
+        changed = False
+
+        def visit(body: List[ast.stmt]) -> List[ast.stmt]:
+            nonlocal changed
+            out = []
+            for st in body:
+                if isinstance(st, FuncNodeT + (ast.ClassDef,)):
+                    out.append(st)
+                    continue
+                rep = _inline_call_stmt(repo, cur, st, no_inline)
+                if rep is not None:
+                    changed = True
+                    out.extend(rep)
+                    continue
+                for fld in ("body", "orelse", "finalbody"):
+                    sub = getattr(st, fld, None)
+                    if isinstance(sub, list) and sub and isinstance(sub[0], ast.stmt):
+                        setattr(st, fld, visit(sub))
+                for h in getattr(st, "handlers", []) or []:
+                    h.body = visit(h.body)
+                out.append(st)
+            return out
+
+        node.body = visit(node.body)
+        if not changed:
+            break
+        changed_any = True
+    if not changed_any:
+        cache[key] = fi
+        return fi
+    ast.fix_missing_locations(node)
+    res = FuncInfo(fi.module, fi.qualname, node, fi.cls, fi.parent)
+    cache[key] = res
+    return res
+
+
+# ---------------------------------------------------------------------------
+# handlers whose class list is a module-level constant
+
+
+def handler_class_names(fi: FuncInfo, h: ast.ExceptHandler) -> List[str]:
+    """q.handler_names with module-level tuple constants (``except _GONE_ERRORS:``) resolved"""
+    out = []
+    for nm in q.handler_names(h):
+        v = fi.module.assigns.get(nm)
+        if isinstance(v, (ast.Tuple, ast.List)):
+            out.extend(q.dotted(e) or q.unparse(e) for e in v.elts)
+        elif v is not None and q.dotted(v):
+            out.append(q.dotted(v))
+        else:
+            out.append(nm)
+    return out
+
+
+def handler_for(fi: FuncInfo, node: ast.AST, exc: str) -> Optional[ast.ExceptHandler]:  # noqa: F811 (supersedes the simple version above)
+    pm = q.parent_map(fi.node)
+    for _try, handlers in q.enclosing_try_handlers(pm, node):
+        for h in handlers:
+            if q.exc_is_caught(exc, handler_class_names(fi, h)):
+                return h
+    return None
+
+
+# ---------------------------------------------------------------------------
+# values through reaching definitions
+
+
+class Flow:
+    """Reaching-definition view of a function (x_secflow.Reach) with helpers to ask what an expression *is*."""
+
+    def __init__(self, fi: FuncInfo):
+        from .x_secflow import Reach
+        self.fi = fi
+        self.reach = Reach(fi)
+        self.cfg = fi.cfg
+
+    def node_of(self, astnode: ast.AST) -> Node:
+        ns = self.reach.cfg_nodes_of(astnode)
+        if not ns:
+            raise AnalysisError("no reachable CFG node for %s" % self.fi.site(astnode))
+        return ns[0]
+
+    def expand(self, e: ast.AST, at: Optional[Node] = None) -> ast.AST:
+        return self.reach.expand(e, at if at is not None else self.node_of(e))
+
+    def alternatives(self, e: ast.AST, at: Optional[Node] = None, limit: int = 16) -> List[Tuple[ast.AST, List[Node]]]:
+        """All expansions of ``e``: a name with several reaching definitions yields one alternative per definition.
+        Each alternative comes with the CFG nodes of the definitions it went through."""
+        at = at if at is not None else self.node_of(e)
+        out: List[Tuple[ast.AST, List[Node]]] = []
+
+        def go(expr: ast.AST, node: Node, via: List[Node], depth: int):
+            if len(out) >= limit or depth > 8:
+                out.append((expr, via))
+                return
+            # find the first name with != 1 reaching definitions or a plain single assignment
+            for x in ast.walk(expr):
+                if isinstance(x, (ast.Name, ast.Attribute)) and isinstance(getattr(x, "ctx", ast.Load()), ast.Load):
+                    d = q.dotted(x)
+                    if d is None:
+                        continue
+                    ds = [df for df in self.reach.defs_at(node, d) if df.kind in ("assign", "unpack") and df.value is not None and df.node is not None]
+                    all_ds = self.reach.defs_at(node, d)
+                    if not ds or len(ds) != len(all_ds):
+                        continue
+                    if any(df.node in via for df in ds):
+                        continue
+                    for df in ds:
+                        val = df.value
+                        if df.kind == "unpack":
+                            val = ast.Call(func=ast.Name(id="__unpack__", ctx=ast.Load()), args=[df.value, ast.Constant(value=df.index), ast.Constant(value=df.arity)], keywords=[])
+                        # the substituted value is relative to its defining node: expand it there first
+                        val2 = self.reach.expand(val, df.node) if len(ds) == 1 else val
+                        new = _subst_node(expr, x, val2)
+                        if len(ds) == 1:
+                            go(new, node, via + [df.node], depth + 1)
+                        else:
+                            # continue resolving the substituted part at its own definition point
+                            for alt, v2 in self.alternatives(val, df.node, limit):
+                                out.append((_subst_node(expr, x, alt), via + [df.node] + v2))
+                    return
+            out.append((expr, via))
+
+        go(e, at, [], 0)
+        return out
+
+
+def _subst_node(root: ast.AST, target: ast.AST, repl: ast.AST) -> ast.AST:
+    import copy as _copy
+
+    class T(ast.NodeTransformer):
+        def visit(self, n):
+            if n is target:
+                return _copy.deepcopy(repl)
+            return super().visit(n)
+
+    # copy everything except that identity of `target` must be preserved during the walk
+    memo = {id(target): target}
+    root2 = _copy.deepcopy(root, memo)
+    return T().visit(root2)
+
+
+def unpack_of(e: ast.AST) -> Optional[Tuple[ast.AST, int, int]]:
+    if isinstance(e, ast.Call) and isinstance(e.func, ast.Name) and e.func.id == "__unpack__" and len(e.args) == 3:
+        return e.args[0], e.args[1].value, e.args[2].value
+    return None
+
+
+def group_index(e: ast.AST) -> Optional[int]:
+    """``M.group(k)`` -> k ; ``__unpack__(M.group(a, b, c), i, n)`` -> the i-th of a, b, c ; ``M[k]`` -> k ;
+    ``__unpack__(M.groups(), i, n)`` -> i + 1"""
+    u = unpack_of(e)
+    if u is not None:
+        v, i, n = u
+        if isinstance(v, ast.Call) and q.call_attr(v) == "group" and len(v.args) == n and all(isinstance(a, ast.Constant) for a in v.args):
+            return v.args[i].value
+        if isinstance(v, ast.Call) and q.call_attr(v) == "groups" and not v.args:
+            return i + 1
+        return None
+    if isinstance(e, ast.Call) and q.call_attr(e) == "group" and len(e.args) == 1 and isinstance(e.args[0], ast.Constant):
+        return e.args[0].value
+    if isinstance(e, ast.Subscript) and isinstance(e.slice, ast.Constant) and type(e.slice.value) is int:
+        return e.slice.value
+    return None
